@@ -356,10 +356,16 @@ impl Drop for SendStream {
     fn drop(&mut self) {
         let mut conn = self.conn.state.lock("SendStream::drop");
 
-        // clean up any previously registered wakers
-        conn.blocked_writers.remove(&self.stream);
+        // After a 0-RTT rejection stream numbering starts over: what is registered under this
+        // handle's number may belong to a live stream opened since
+        let stale = self.is_0rtt && conn.check_0rtt().is_err();
 
-        if conn.error.is_some() || (self.is_0rtt && conn.check_0rtt().is_err()) {
+        // clean up any previously registered wakers
+        if !stale {
+            conn.blocked_writers.remove(&self.stream);
+        }
+
+        if conn.error.is_some() || stale {
             return;
         }
         match conn.inner.send_stream(self.stream).finish() {
